@@ -14,6 +14,7 @@
     unescape_plain_and_inverts unescapeFn_spec stripentities_escape striptags_escape plaintext_escape
     attrs_has_iff_get attrs_slice_spec attrs_sub_nodup attrs_or_sub_nodup attrs_totuple_append
     qname_pickle_roundtrip qname_parse ns_getitem_in
+    stripentities_keepxml_escape striptags_no_tag attrs_get_or
 -/
 import Genshi.Lemmas.Escape
 import Genshi.Lemmas.MarkupOps
@@ -533,6 +534,60 @@ theorem ns_getitem_in (uri name : List Char) (h1 : '}' ∉ uri) (h2 : uri.head? 
   have := (qname_parse uri name h1 h2).2
   simp [nsGetItem, nsContains, this]
 
+/-- with `keepxmlentities` the entities `escape` writes for `& < >` stay and `&#34;` is read
+    back: the result is the text escaped without quotes -/
+theorem stripentities_keepxml_escape (i : Impl) (q : Bool) (s : List Char) :
+    MarkupOps.stripentities true (escOf i q s) = .ok (escapeSpec false s) := by
+  rw [escOf_eq_spec]; exact stripentitiesK_escape q s
+
+/-- `striptags` leaves no tag: in its result no `<` is followed, anywhere later, by a `>` -/
+theorem striptags_no_tag (s pre post : List Char) (h : striptags s = pre ++ '<' :: post) : '>' ∉ post :=
+  striptags_noTag s pre post h
+
+/-- `get` after `|`: a name given `None` is gone; otherwise the last value given on the right;
+    otherwise the value the name had on the left (no hypothesis on either operand) -/
+theorem attrs_get_or (a : Attrs) (b : List (Name × Option (List Char))) (n : Name) :
+    Attrs.get (Attrs.or a b) n =
+      if (orRemove b).contains n then none
+      else match lastVal n (somes b) with
+        | some v => some v
+        | none => Attrs.get a n := by
+  by_cases hr : (orRemove b).contains n = true
+  · simp only [hr, ↓reduceIte]
+    have hmem : (n, none) ∈ b := by
+      simp only [orRemove, List.contains_iff_mem, List.mem_filterMap] at hr
+      obtain ⟨p, hp, hpe⟩ := hr
+      obtain ⟨k, ov⟩ := p
+      cases ov with
+      | none => simp at hpe; subst hpe; exact hp
+      | some v => simp at hpe
+    have := attrs_or_none_removed a b n hmem
+    rw [has_eq_get_isSome] at this
+    cases hg : Attrs.get (Attrs.or a b) n with
+    | none => rfl
+    | some v => rw [hg] at this; simp at this
+  · have hr' : (orRemove b).contains n = false := by simpa using hr
+    simp only [hr', Bool.false_eq_true, ↓reduceIte]
+    unfold Attrs.or
+    rw [get_append, get_orKept a b n hr']
+    by_cases hh : a.has n = true
+    · have hh2 := hh
+      rw [has_eq_get_isSome] at hh2
+      obtain ⟨sv, hsv⟩ := Option.isSome_iff_exists.mp hh2
+      rw [hsv, lastVal_orRepl a b n hh]
+      cases lastVal n (somes b) <;> simp
+    · have hh' : a.has n = false := by simpa using hh
+      have hg : Attrs.get a n = none := by
+        have := hh'; rw [has_eq_get_isSome] at this
+        cases hx : Attrs.get a n with
+        | none => rfl
+        | some v => rw [hx] at this; simp at this
+      rw [hg]
+      simp only [Option.map_none]
+      unfold orNew
+      rw [get_orNew_fold a (orRemove b) n hh' hr' b []]
+      cases lastVal n (somes b) <;> simp [Attrs.get]
+
 end Wave4
 
 /-! ### non-vacuity -/
@@ -576,6 +631,8 @@ example : attrsSlice [(['a'], ['1']), (['b'], ['2']), (['c'], ['3'])] (some (-2)
     attrsIndex [(['a'], ['1'])] (-1) = .ok (['a'], ['1']) ∧ attrsIndex [(['a'], ['1'])] 1 = .error .indexError := by
   decide
 example : attrsTotuple [(['a'], ['1']), (['b'], ['2', '3'])] = ['1', '2', '3'] := by decide
+example : Attrs.get (Attrs.or [(['h'], ['#']), (['t'], ['x'])] [(['h'], some ['1']), (['n'], some ['1']), (['h'], some ['2']), (['t'], none)]) ['h'] = some ['2'] := by decide
+example : striptags ['<', '<', 'a', '>', 'b', '<'] = ['b', '<'] := by decide
 end Wave4Examples
 
 end Genshi.Props.C18
